@@ -123,7 +123,11 @@ func vstubTimerReset(t *time.Timer, d time.Duration) bool {
 	}
 	return true
 }
-func vstubTimerStop(t *time.Timer) bool { return true }
+// Stop reports false for a timer that has already fired (time.Timer contract); vFiredTimer is the timer of a
+// request that left through its timeout: exec consumed the tick, the channel is empty
+var vFiredTimer *time.Timer
+
+func vstubTimerStop(t *time.Timer) bool { return t == nil || t != vFiredTimer }
 
 type vErrHandler struct{}
 
@@ -351,8 +355,13 @@ func vh_recv() {
 	c2 := &callReq{streamID: k2, resp: make(chan callResp), timeout: make(chan struct{})}
 	vEnvChan(c1.resp)
 	vEnvChan(c2.resp)
+	vFiredTimer = nil
 	if vBool("caller1_gave_up") {
 		close(c1.timeout)
+		if vBool("caller1_left_through_its_timeout") {
+			c1.timer = &time.Timer{C: make(chan time.Time, 1)}
+			vFiredTimer = c1.timer
+		}
 	}
 	c.calls[k1] = c1
 	if vBool("two_calls") {
